@@ -3,7 +3,7 @@ from core import report
 from core.report import Rule
 from core.sm9 import Repo
 from core.terms import strip, show
-from . import shared, field, conv2, norm, ladder, mono
+from . import shared, field, conv2, norm, ladder, mono, support
 
 LADDERS = [("crate::fields::FieldElement::pow", "one", "squared", "mul_assign")]
 
@@ -97,7 +97,7 @@ def run(ctx):
     rules = [shared.rule_eq_derived(repo, ["crate::Gt", "crate::fields::fq12::Fq12", "crate::fields::fq4::Fq4", "crate::fields::fq2::Fq2", "crate::fields::fp::Fq", "crate::u256::U256"]),
              r_lay, shared.rule_red(repo), rule_gt_forward(repo), field.rule_tower_consts("C11", repo), field.rule_zero_cover("C11", repo), field.rule_tower_shapes("C11", repo), ladder.rule_ladder("C11", repo, ladders(repo)), field.rule_bits("C11", repo),
              field.rule_ops_forward("C11", repo, ["crate::fields::fq12::Fq12", "crate::fields::fq4::Fq4"]),
-             field.rule_shortcuts("C11", repo, ["crate::fields::fq12::Fq12", "crate::fields::fq4::Fq4", "crate::fields::fq2::Fq2"]), mono.rule_shortcut_formulas("C11", repo, ["crate::fields::fq12::Fq12", "crate::fields::fq4::Fq4", "crate::fields::fq2::Fq2"])]
+             field.rule_shortcuts("C11", repo, ["crate::fields::fq12::Fq12", "crate::fields::fq4::Fq4", "crate::fields::fq2::Fq2"]), mono.rule_shortcut_formulas("C11", repo, ["crate::fields::fq12::Fq12", "crate::fields::fq4::Fq4", "crate::fields::fq2::Fq2"]), support.rule_shortcut_supports("C11", repo, ["crate::fields::fq12::Fq12", "crate::fields::fq4::Fq4", "crate::fields::fq2::Fq2"])]
     return report.emit(
         "C11", ctx.tier, ctx.seed, rules, ctx.started,
         "== on Gt is the derived comparison of all 12 Fq limbs; the 384-byte layout is an exact tiling c2‖c1‖c0 / c1‖c0 / imag‖real, hence injective; limbs are canonical (typestate "
